@@ -306,8 +306,26 @@ func TestC16(t *testing.T) {
 					return map[string]any{"history": hist, "config_in_force": cur.String(), "detail": extra}
 				}
 				if emptyID {
-					if err == nil || out != nil {
-						run.Violation("history-pattern:empty-event-id", "an event with an empty event id must be rejected and not forwarded", wit(""))
+					// the library refuses an empty event id (no per-event wrapper can be derived). The statement
+					// does not demand the refusal; it does demand that whatever is forwarded is protected under a
+					// key that can be in force: the per-event key of the empty id, or the filter's own
+					switch {
+					case err != nil && out == nil:
+						run.Add("empty_event_id_refused", 1)
+					case err != nil:
+						run.Violation("history-pattern:empty-event-id", "Process returned an error and an event for an empty event id", wit(""))
+					default:
+						var gotE KPayload
+						switch p := out.Payload.(type) {
+						case *infoPayload:
+							gotE = p.KPayload
+						case *infoTagPayload:
+							gotE = p.KPayload
+						}
+						k1 := cryp.EventKey(cur.key, "")
+						if why1, why2 := verifyEvent(orig, gotE, k1, k1, salt, info, nil), verifyEvent(orig, gotE, cur.key, cur.key, salt, info, nil); why1 != "" && why2 != "" {
+							run.Violation("history-pattern:empty-event-id", "an event with an empty event id was forwarded protected under neither the per-event key of the empty id nor the filter's key: "+why1, wit(why2))
+						}
 					}
 					continue
 				}
